@@ -789,6 +789,7 @@ func init() {
 			return core.Meta{
 				Level: "exploration",
 				Rule: "programs = Just/New leaves followed by a FlatMap chain of depth <= D (D=3 quick, 5 thorough; all chains enumerated) over 6 continuation kinds (pure Just, New with effect, nested FlatMap, continuation that logs when called, FlatMap(Just) tail, a monad pre-configured with its own ObserveOn/SubscribeOn on another / the chain's own / a closed handler) plus PRNG chains up to length 30; first of all a MonadIO observed on the package-level default Handler as the first library call of the process; each program: log empty after construction and after ObserveOn/SubscribeOn, Eval x3 and Subscribe x2 under all four nil/non-nil handler combinations each add exactly the expected effect sequence and deliver exactly one value, goroutine identity of effects and OnNext, nil OnNext runs nothing, handlers stay bound to a subscription when the MonadIO is re-configured while its effect is in flight, left/right identity and associativity by (value, effect log); carried values that are themselves MonadIOs / Maybes / nil (Just, New, FlatMap, Eval, Subscribe hand them on untouched and never run them); 8 goroutines evaluating one composition (or two compositions sharing their first step) at the same time; branching compositions (two children of one parent of depth 0..18 (thorough 40) x all 25 continuation pairs, each extended once more, evaluated twice in interleaved order); 5 Subscribes of one counting MonadIO whose deliveries are pending on a busy SubscribeOn handler (each must get the value of its own evaluation). " +
+					"(round 7) evaluation by a coroutine (Cor.YieldFromIO) of a MonadIO observed on a temporarily busy handler: the effect waits for the handler, runs on its goroutine, once; " +
 					"distinct_nontrivial = enumerated (program, mode) cases whose expected effect log is non-empty",
 				Assumptions: []string{"observe and subscribe handlers are two distinct handlers (posting to an unbuffered handler from its own goroutine blocks by construction)",
 					"with ObserveOn only, OnNext runs on the observe handler's goroutine", "mostly sequential driver (the property quantifies over compositions); overlapping evaluations only in the dedicated probe"},
